@@ -917,6 +917,22 @@ func (x *Exec) specIndex(env *SpecEnv, n *EIndex) TV {
 				it = sv.T
 			} else if pv, ok := i.V.(*PtrV); ok {
 				it = pv.Ref
+			} else if stv, ok := i.V.(*StructV); ok && i.T != nil {
+				// a struct used as the key of a ghost set (visited[k]): the same key term a map with
+				// that key type uses
+				ts := x.flatten(i.T, stv)
+				idx := v.T.Sort.Idx
+				switch {
+				case len(ts) == 1:
+					it = ts[0]
+				case idx.K == KUnint && strings.HasPrefix(idx.Name, "Key_"):
+					it = x.tupleKey(env.state(), i.T, ts)
+				default:
+					it = ts[0]
+					for _, t := range ts[1:] {
+						it = Concat(it, t)
+					}
+				}
 			}
 			if it == nil {
 				specFail("unsupported index value %T", i.V)
